@@ -241,6 +241,20 @@ func evalConf(cf *sdl.Conf, cfg map[string]string) confExpect {
 		} else {
 			val = strconv.Itoa(x * y)
 		}
+	case "indirect":
+		// ${other.f} is substituted by a value that consists of three more placeholders
+		_, okF := cfg[cf.Keys[0]]
+		a, okA := cfg["sim.a"]
+		b, okB := cfg["sim.b"]
+		c, okC := cfg["sim.c"]
+		if !okF || !okA || !okB || !okC {
+			e.Open = true
+			return e
+		}
+		x, _ := strconv.Atoi(a)
+		y, _ := strconv.Atoi(b)
+		z, _ := strconv.Atoi(c)
+		val = strconv.Itoa(x + y + z)
 	case "sumDef":
 		a, okA := cfg[cf.Keys[0]]
 		if !okA {
@@ -468,7 +482,7 @@ func (w *World) CheckConfigStages(o *Obs) []Violation {
 			}
 			if got, ok := o.CfgLate[x.inst][x.cf.Field]; ok && got != e.Value {
 				oracle := "bound-value-differs"
-				if x.cf.Menu == "sum" || x.cf.Menu == "mul" || x.cf.Menu == "nested" || x.cf.Menu == "sumDef" {
+				if x.cf.Menu == "sum" || x.cf.Menu == "mul" || x.cf.Menu == "nested" || x.cf.Menu == "sumDef" || x.cf.Menu == "indirect" {
 					oracle = "expression-result-differs"
 				}
 				vs = append(vs, v("C18", oracle, x.inst+"."+x.cf.Field, fmt.Sprintf("lazy component %s was created after Run; %s (%s %v default=%q) holds %q, the menu evaluator gives %q over the configuration of that moment %v", x.inst, x.cf.Field, x.cf.Menu, x.cf.Keys, x.cf.Default, got, e.Value, cfgLate)))
@@ -486,7 +500,7 @@ func (w *World) CheckConfigStages(o *Obs) []Violation {
 			}
 			if got != x.e.Value {
 				oracle := "bound-value-differs"
-				if x.cf.Menu == "sum" || x.cf.Menu == "mul" || x.cf.Menu == "nested" || x.cf.Menu == "sumDef" {
+				if x.cf.Menu == "sum" || x.cf.Menu == "mul" || x.cf.Menu == "nested" || x.cf.Menu == "sumDef" || x.cf.Menu == "indirect" {
 					oracle = "expression-result-differs"
 				}
 				vs = append(vs, v("C18", oracle, x.inst+"."+x.cf.Field, fmt.Sprintf("%s.%s (%s %v default=%q) holds %q, the menu evaluator gives %q over configuration %v", x.inst, x.cf.Field, x.cf.Menu, x.cf.Keys, x.cf.Default, got, x.e.Value, cfg)))
